@@ -505,6 +505,11 @@ def hoist_job(member):
         params = {p.name.name for p in fn.parameters}
         if params & set(decls):
             bad.append(f"{fn.name.name}: a local shadows a parameter: {params & set(decls)}")
+        # block scoping of C vs one variable per name in the IR and in LLVM
+        from standins.static_ir import shadowing
+
+        for b in shadowing(fn):
+            bad.append(f"{fn.name.name}: {b} (block scoping in C, one slot per name in LLVM and in the IR)")
     return member.key, bad
 
 
